@@ -160,6 +160,9 @@ def run(w: World, rep: Report):
     # ---- R4 / R5 documented operands and stack effect ---------------------------
     _effects_table(w, rep)
 
+    # ---- R7 documented groups are popped contiguously ------------------------------
+    _group_pops(w, rep)
+
     # ---- R3 table agreement ----------------------------------------------------
     _table_agreement(w, rep)
 
@@ -236,6 +239,49 @@ def _effects_table(w: World, rep: Report):
                            f'documented: needs {want[0]}, changes depth by {want[1]}')
             rep.check('C06.R4', f'functions.{hname}|effect|{",".join("x" if v is None else str(v) for v in sample) or "-"}',
                       ok, line=fi.node.lineno, file=rel, why=why, facts={'got': got, 'want': want})
+
+
+def _group_pops(w: World, rep: Report):
+    """Every instruction that takes a counted group of items documents it as one run of consecutive stack items
+    ("pull that many values", "count sources, then count proofs", "n keys, then m signatures", "argcount
+    arguments").  A loop therefore pops one group: one pop of the handler's own stack per iteration.  Two pops
+    per iteration interleave two groups - the depth effect is the same, the items land in the wrong roles."""
+    rel = 'tapescript/functions.py'
+    rep.rule('C06.R7', 'counted groups are popped contiguously: a loop over a count pops at most one item of the '
+             'handler\'s own stack per iteration', floor=12)
+    for hname, fi in sorted(w.handlers.items()):
+        stack = fi.params[1]
+        k = 0
+        for lp in ast.walk(fi.node):
+            if not isinstance(lp, (ast.For, ast.While)):
+                continue
+            gets = [x for b in lp.body for x in ast.walk(b)
+                    if isinstance(x, ast.Call) and isinstance(x.func, ast.Attribute) and x.func.attr == 'get'
+                    and isinstance(x.func.value, ast.Name) and x.func.value.id == stack]
+            # pops inside a nested loop belong to that loop
+            inner = [y for b in lp.body for n in ast.walk(b) if isinstance(n, (ast.For, ast.While)) for c in n.body
+                     for y in ast.walk(c)]
+            gets = [g for g in gets if not any(g is y for y in inner)]
+            if not gets:
+                continue
+            k += 1
+            # pops that feed the same expression chain (e.g. a get inside a put of the same item) still count each
+            ok = len(gets) == 1
+            rep.check('C06.R7', f'functions.{hname}|loop#{k}|one-pop-per-iteration', ok, line=lp.lineno, file=rel,
+                      why='' if ok else f'the loop at line {lp.lineno} pops {len(gets)} items of the stack per iteration: two '
+                      f'documented groups are read interleaved instead of one after the other (sources/proofs, keys/'
+                      f'signatures ...), so items land in the wrong roles while the stack effect stays the same')
+    for lc_owner, fi in sorted(w.handlers.items()):
+        stack = fi.params[1]
+        for lc in ast.walk(fi.node):
+            if isinstance(lc, (ast.ListComp, ast.SetComp, ast.GeneratorExp)):
+                gets = [x for x in ast.walk(lc) if isinstance(x, ast.Call) and isinstance(x.func, ast.Attribute)
+                        and x.func.attr == 'get' and isinstance(x.func.value, ast.Name) and x.func.value.id == stack]
+                if gets:
+                    ok = len(gets) == 1
+                    rep.check('C06.R7', f'functions.{lc_owner}|comprehension@{lc.lineno - fi.node.lineno}|one-pop-per-element',
+                              ok, line=lc.lineno, file=rel,
+                              why='' if ok else f'the comprehension pops {len(gets)} items per element: two groups interleaved')
 
 
 def _def_call(w: World, rep: Report):
